@@ -114,12 +114,40 @@ def shard_seq(shard):
     return part
 
 
+def shard_coexist(shard):
+    """Flavour objects built in every order must each still parse their own printed instructions to their own classes."""
+    from netqasm.lang.instr import flavour as fl
+    from netqasm.lang.parsing.text import parse_text_subroutine
+    part = new_part()
+    ctors = {"vanilla": fl.VanillaFlavour, "nv": fl.NVFlavour, "reids": fl.REIDSFlavour}
+    for order in itertools.permutations(ctors):
+        made = {name: ctors[name]() for name in order}
+        for name, inst in made.items():
+            for cls in fl.CORE_INSTRUCTIONS + list(inst.instrs):
+                kinds = codec.live_operand_kinds(cls)
+                lv = codec.background_high(codec.wiretable.leaf_kinds(kinds))
+                instr = codec.make_instr(cls, kinds, lv)
+                part["evals"] += 1
+                part["distinct"] += 1
+                case = {"flavour": name, "construction_order": list(order), "text": str(instr)}
+                try:
+                    got = parse_text_subroutine(HEADER + str(instr) + "\n", flavour=inst).instructions
+                except Exception as exc:
+                    add_violation(part, f"coexist-unparsable/{name}", f"{type(exc).__name__}: {exc}", case)
+                    continue
+                if len(got) != 1 or type(got[0]) is not cls or got[0] != instr:
+                    add_violation(part, f"coexist-class/{name}/{cls.mnemonic}", f"with flavours constructed in order {order}, the {name} "
+                                  f"flavour parses printed {cls.mnemonic} to {type(got[0]).__module__}.{type(got[0]).__name__}", case)
+    count(part, "coexist-orders", 6)
+    return part
+
+
 def _dispatch(shard):
-    return {"instr": shard_instr, "seq": shard_seq}[shard[0]](shard)
+    return {"instr": shard_instr, "seq": shard_seq, "coexist": shard_coexist}[shard[0]](shard)
 
 
 def run(ctx):
-    shards: List[Any] = []
+    shards: List[Any] = [("coexist",)]
     maxlen = 2 if ctx.tier == "quick" else 3
     for flav in FLAVOURS:
         for c in codec.live_classes(flav):
@@ -131,10 +159,13 @@ def run(ctx):
         ctx.require(f"class-explored/{flav}", 30)
     ctx.require("sequences", 300)
     ctx.require("negative-integers", 1)
+    ctx.require("coexist-orders", 6)
 
 
 def replay(case, part):
-    if "sequence" in case:
+    if "construction_order" in case:
+        part["violations"].extend(shard_coexist(("coexist",))["violations"])
+    elif "sequence" in case:
         seq = [(m, [tuple(x) if isinstance(x, list) else x for x in lv]) for m, lv in case["sequence"]]
         check_sequence(case["flavour"], seq, part)
     else:
